@@ -71,13 +71,13 @@ func zvC31Alphabet(nbrs ...zvNbr) []string {
 
 // zvC31Ref is the harness-side bookkeeping for one neighbour.
 type zvC31Ref struct {
-	lastTLV     string // variant of the most recent hello that carried a three-way TLV ("" = none yet)
-	validAt     int    // time (s) and holding time of the most recent hello with three-way TLV
-	validHold   int
-	anyAt       int // the same for the most recent hello of any kind (TLV-less hellos are open: see above)
-	anyHold     int
-	seen        bool
-	listedOnce  bool
+	lastTLV    string // variant of the most recent hello that carried a three-way TLV ("" = none yet)
+	validAt    int    // time (s) and holding time of the most recent hello with three-way TLV
+	validHold  int
+	anyAt      int // the same for the most recent hello of any kind (TLV-less hellos are open: see above)
+	anyHold    int
+	seen       bool
+	listedOnce bool
 }
 
 // deadline is the latest second at which the adjacency may still be Up.
@@ -95,15 +95,15 @@ type zvC31Case struct {
 }
 
 type zvC31Obs struct {
-	Adj       []zvAdj
-	Prev      []zvAdj // adjacency list before the last event
-	Canon     string
-	Now       int
-	EverUp    map[string]bool
+	Adj        []zvAdj
+	Prev       []zvAdj // adjacency list before the last event
+	Canon      string
+	Now        int
+	EverUp     map[string]bool
 	AfterQuiet []zvAdj // adjacency list after the silent extension (nil if not run)
-	QuietFor  int
-	Reach     []string // IS reachability of the own LSP after a regen event
-	UpSys     []string
+	QuietFor   int
+	Reach      []string // IS reachability of the own LSP after a regen event
+	UpSys      []string
 	RegenSeqOK bool
 }
 
@@ -126,10 +126,9 @@ func zvC31Replay(hist []string, extendIf func(canon string) bool, trace bool) (o
 	viol := func(sig map[string]string, f string, a ...any) {
 		viols = append(viols, zvC31Viol{sig, fmt.Sprintf(f, a...)})
 	}
-	x := vsched.Exec(vsched.Config{MaxSteps: 2000000, Trace: trace, Sites: trace}, func() {
+	x := zvExec(vsched.Config{MaxSteps: 2000000, Trace: trace, Sites: trace}, func() {
 		w := zvIsisNew(false, zvIfEth0, zvIfEth1)
-		w.link("eth0", true)
-		w.link("eth1", true)
+		w.linksUp("eth0", "eth1")
 		start := vsched.Now()
 		now := func() int { return int(vsched.Now().Sub(start) / time.Second) }
 		refs := map[string]*zvC31Ref{"N1": {}, "N2": {}}
